@@ -27,6 +27,10 @@
   the subject of the heap-level model Props/C10Arm64 (`sealA64_appends`, `openA64_decides`) and of the `*_inplace_*` listing theorems.
   On amd64 the listing theorems carry region bounds < 2^32 while the glue's bound is `maxPlain` ≈ 2^36: instantiating `LeafOkAmd64`
   from the listings covers lengths below 2^32 (a domain gap between the two interfaces, not a disagreement).
+  Bounds of `&a[i]`: every pointer argument of a routine is an index expression; the IR reads the element first (stuck when i ≥ len a,
+  like Go's panic).  Hence `rk_ne` (the round-key slice is not empty) in both interfaces, `0 < len(pt) + tagSize` for the amd64 Seal
+  (`ir_Seal_amd64_stuck_empty` is the panic case), and the mutant theorem `ir_Open_amd64_mutant_stuck`.  `LeafOk.gh` is stated for
+  `count ≥ 1` only (the routine is a do-while; Props/C06Arm64 has the same premise): the listing theorems can discharge it.
   No IR/specification disagreement was found.  Axioms: propext, Classical.choice, Quot.sound.
 -/
 import SMGo.Proofs.CTIRRefineGCMCompose
@@ -47,9 +51,9 @@ variable {P : Prog} {G : Nat → Val} {O : Oracle} {E : Bytes → Bytes} {c rk :
 /-! ## (1) arm64: the small routines (SMGo/Proofs/CTIRRefineGCMSmall.lean) -/
 
 /-- the leaf interface is inhabited: the semantics built from Spec.SM4 / Spec.GCM (the driver's) satisfies it -/
-theorem specSem_leafSpec (rkw : List W32) :
+theorem specSem_leafSpec (rkw : List W32) (hrk : rkw ≠ []) :
     LeafSpec (specSem rkw) (Spec.SM4.cryptFast rkw) (wordsV rkw) :=
-  SMGo.Proofs.CTIRRefineGCM.specSem_leafSpec rkw
+  SMGo.Proofs.CTIRRefineGCM.specSem_leafSpec rkw hrk
 
 /-- fillCounter16/32/64/128/256: the n counter blocks J+count+1 … J+count+n (32-bit wrap) -/
 theorem ir_fillCounterN_eq (hP : HasSmall P) : FillOk P G O fuelFill :=
@@ -103,7 +107,7 @@ theorem ir_cryptoBlocks_eq_gctr (hO : LeafOk O E rk) (c : Val) (ns ts : Nat) (ou
       [bytesV (gctr E (inc32 (blockToNat J)) inp ++ out.drop inp.length)] :=
   SMGo.Proofs.CTIRRefineGCM.cryptoBlocks_computes hO c ns ts out inp J hJ hle hmax
 
-theorem fuelCrypt_eq (l : Nat) : fuelCrypt l = l / 16 / 16 * 494 + 2570 :=
+theorem fuelCrypt_eq (l : Nat) : fuelCrypt l = l / 16 / 16 * 504 + 2670 :=
   SMGo.Proofs.CTIRRefineGCM.fuelCrypt_eq l
 
 /-- every callee of Seal / Open, as the bundle the modular theorems take -/
@@ -162,15 +166,15 @@ theorem ir_Open_arm64_eq_spec_sem {G : Nat → Val} {sem : Nat → List Val → 
   SMGo.Proofs.CTIRRefineGCM.ir_Open_arm64_eq_spec_sem hS hc dst nonce ct aad cap hn hns h12 hts hlen hcap hcap62 haad
 
 /-- closed: generated program and globals, specification semantics of the leaves, SM4 with round keys rkw -/
-theorem ir_Seal_arm64_closed (rkw : List W32) (rest : List Val) {ns ts : Nat} (dst nonce pt aad : Bytes) (cap : Nat)
+theorem ir_Seal_arm64_closed (rkw : List W32) (hrk : rkw ≠ []) (rest : List Val) {ns ts : Nat} (dst nonce pt aad : Bytes) (cap : Nat)
     (hn : nonce.length = ns) (hns : ns < 2 ^ 61) (hpt : pt.length ≤ maxPlain) (hcap : dst.length ≤ cap) (hts : ts ≤ 16)
     (hcap62 : cap < 2 ^ 62) (haad : aad.length < 2 ^ 61) :
     ∀ f, fuelSealOpen pt.length ≤ f →
       runV PA GA (asmOracle specsA (specSem rkw)) f 0 (glueArgs (cipherV rkw rest) (wordsV rkw) ns ts dst nonce pt aad cap)
         = .ret [bytesV dst, bytesV (dst ++ sealGCM (Spec.SM4.cryptFast rkw) ts nonce pt aad)] :=
-  SMGo.Proofs.CTIRRefineGCM.ir_Seal_arm64_closed rkw rest dst nonce pt aad cap hn hns hpt hcap hts hcap62 haad
+  SMGo.Proofs.CTIRRefineGCM.ir_Seal_arm64_closed rkw hrk rest dst nonce pt aad cap hn hns hpt hcap hts hcap62 haad
 
-theorem ir_Open_arm64_closed (rkw : List W32) (rest : List Val) {ns ts : Nat} (dst nonce ct aad : Bytes) (cap : Nat)
+theorem ir_Open_arm64_closed (rkw : List W32) (hrk : rkw ≠ []) (rest : List Val) {ns ts : Nat} (dst nonce ct aad : Bytes) (cap : Nat)
     (hn : nonce.length = ns) (hns : ns < 2 ^ 61) (h12 : 12 ≤ ts) (hts : ts ≤ 16) (hlen : ct.length ≤ maxPlain + ts)
     (hcap : dst.length ≤ cap) (hcap62 : cap < 2 ^ 62) (haad : aad.length < 2 ^ 61) :
     ∀ f, fuelSealOpen (ct.length - ts) ≤ f →
@@ -178,9 +182,9 @@ theorem ir_Open_arm64_closed (rkw : List W32) (rest : List Val) {ns ts : Nat} (d
         match openGCM (Spec.SM4.cryptFast rkw) ts nonce ct aad with
         | some pt => .ret [bytesV dst, bytesV (dst ++ pt), .int 0]
         | none => .ret [bytesV dst, .arr [], .int 1] :=
-  SMGo.Proofs.CTIRRefineGCM.ir_Open_arm64_closed rkw rest dst nonce ct aad cap hn hns h12 hts hlen hcap hcap62 haad
+  SMGo.Proofs.CTIRRefineGCM.ir_Open_arm64_closed rkw hrk rest dst nonce ct aad cap hn hns h12 hts hlen hcap hcap62 haad
 
-theorem fuelSealOpen_eq (l : Nat) : fuelSealOpen l = l / 16 / 16 * 494 + 2944 :=
+theorem fuelSealOpen_eq (l : Nat) : fuelSealOpen l = l / 16 / 16 * 504 + 3106 :=
   SMGo.Proofs.CTIRRefineGCM.fuelSealOpen_eq l
 
 /-- modular form (any program containing fn_0, callees as hypotheses) -/
@@ -250,9 +254,9 @@ variable {P : Prog} {G : Nat → Val} {O : Oracle} {E : Bytes → Bytes} {rk : V
 /-! ## (4) amd64: ensureCapacity, Seal, Open around the fused routines (SMGo/Proofs/CTIRRefineGCMAmd64.lean) -/
 
 /-- the amd64 leaf interface is inhabited -/
-theorem leafSpecAmd64_sem (rkw : List W32) :
+theorem leafSpecAmd64_sem (rkw : List W32) (hrk : rkw ≠ []) :
     LeafSpecAmd64 semAmd64 (Spec.SM4.cryptFast rkw) (.arr (rkw.map w32V)) :=
-  SMGo.Proofs.CTIRRefineGCMAmd64.leafSpecAmd64_sem rkw
+  SMGo.Proofs.CTIRRefineGCMAmd64.leafSpecAmd64_sem rkw hrk
 
 theorem ensureCapacity_amd64_computes (h1 : P[1]? = some fn_1) (hL : LeafOkAmd64 O E rk) (arr : Bytes) (asked cap : Nat)
     (hc : arr.length ≤ cap) (hcap : cap < 2 ^ 63) (hsum : arr.length + asked < 2 ^ 63) :
@@ -262,10 +266,11 @@ theorem ensureCapacity_amd64_computes (h1 : P[1]? = some fn_1) (hL : LeafOkAmd64
 
 theorem ir_Seal_amd64_eq_spec (h0 : P[0]? = some fn_0) (h1 : P[1]? = some fn_1) (hL : LeafOkAmd64 O E rk) (c : Val)
     (ns ts cap : Nat) (dst nonce pt aad : Bytes)
-    (hn : nonce.length = ns) (hp : pt.length ≤ maxPlain) (hts : ts ≤ 16) (hc : dst.length ≤ cap) (hcap : cap < 2 ^ 62) :
+    (hn : nonce.length = ns) (hp : pt.length ≤ maxPlain) (hts : ts ≤ 16) (hne : 0 < pt.length + ts)
+    (hc : dst.length ≤ cap) (hcap : cap < 2 ^ 62) :
     Computes P G O 0 fuelSealAmd64 (glueArgs c rk ns ts dst nonce pt aad cap)
       [bytesV dst, bytesV (dst ++ sealGCM E ts nonce pt aad)] :=
-  SMGo.Proofs.CTIRRefineGCMAmd64.ir_Seal_amd64_eq_spec h0 h1 hL c ns ts cap dst nonce pt aad hn hp hts hc hcap
+  SMGo.Proofs.CTIRRefineGCMAmd64.ir_Seal_amd64_eq_spec h0 h1 hL c ns ts cap dst nonce pt aad hn hp hts hne hc hcap
 
 theorem ir_Open_amd64_eq_spec (h1 : P[1]? = some fn_1) (h2 : P[2]? = some fn_2) (hL : LeafOkAmd64 O E rk) (c : Val)
     (ns ts cap : Nat) (dst nonce ct aad : Bytes)
@@ -300,22 +305,45 @@ theorem ir_Open_amd64_panic_tag (h2 : P[2]? = some fn_2) (c : Val) (ns ts cap : 
     ∀ f, 7 ≤ f → runV P G O f 2 (glueArgs c rk ns ts dst nonce ct aad cap) = .panic :=
   SMGo.Proofs.CTIRRefineGCMAmd64.ir_Open_amd64_panic_tag h2 c ns ts cap dst nonce ct aad hn hts
 
+/-- tagSize = 0 and an empty plaintext: Go panics at `&ret[len(dst)]`, the IR is stuck -/
+theorem ir_Seal_amd64_stuck_empty (h0 : P[0]? = some fn_0) (h1 : P[1]? = some fn_1) (hL : LeafOkAmd64 O E rk) (c : Val)
+    (ns cap : Nat) (dst nonce aad : Bytes) (hn : nonce.length = ns) (hc : dst.length ≤ cap) (hcap : cap < 2 ^ 62) :
+    ∀ f, runV P G O f 0 (glueArgs c rk ns 0 dst nonce [] aad cap) = .stuck :=
+  SMGo.Proofs.CTIRRefineGCMAmd64.ir_Seal_amd64_stuck_empty h0 h1 hL c ns cap dst nonce aad hn hc hcap
+
+/-- Open of a tag-only input with a valid tag -/
+theorem ir_Open_amd64_tag_only (h1 : P[1]? = some fn_1) (h2 : P[2]? = some fn_2) (hL : LeafOkAmd64 O E rk) (c : Val)
+    (ns ts cap : Nat) (dst nonce ct aad pt : Bytes)
+    (hn : nonce.length = ns) (hts : 12 ≤ ts) (hts' : ts ≤ 16) (hct : ct.length = ts)
+    (hc : dst.length ≤ cap) (hcap : cap < 2 ^ 62) (ho : openGCM E ts nonce ct aad = some pt) :
+    Computes P G O 2 fuelOpenAmd64 (glueArgs c rk ns ts dst nonce ct aad cap) [bytesV dst, bytesV dst, .int 0] :=
+  SMGo.Proofs.CTIRRefineGCMAmd64.ir_Open_amd64_tag_only h1 h2 hL c ns ts cap dst nonce ct aad pt hn hts hts' hct hc hcap ho
+
+/-- the MUTANT `fn_2_mut` (guard of sm4_gcm_amd64.go:46 changed from > to >=) is stuck on every tag-only input: the refinement theorem distinguishes it from the real function -/
+theorem ir_Open_amd64_mutant_stuck (h1 : P[1]? = some fn_1) (h2 : P[2]? = some fn_2_mut) (hL : LeafOkAmd64 O E rk) (c : Val)
+    (ns ts cap : Nat) (dst nonce ct aad : Bytes)
+    (hn : nonce.length = ns) (hts : 12 ≤ ts) (hts' : ts ≤ 16) (hct : ct.length = ts)
+    (hc : dst.length ≤ cap) (hcap : cap < 2 ^ 62) :
+    ∀ f, runV P G O f 2 (glueArgs c rk ns ts dst nonce ct aad cap) = .stuck :=
+  SMGo.Proofs.CTIRRefineGCMAmd64.ir_Open_amd64_mutant_stuck h1 h2 hL c ns ts cap dst nonce ct aad hn hts hts' hct hc hcap
+
 /-- closed: generated amd64 program, reference semantics -/
-theorem run_Seal_amd64_ref (rkw : List W32) (c : Val) (ns ts cap : Nat) (dst nonce pt aad : Bytes)
-    (hn : nonce.length = ns) (hp : pt.length ≤ maxPlain) (hts : ts ≤ 16) (hc : dst.length ≤ cap) (hcap : cap < 2 ^ 62)
+theorem run_Seal_amd64_ref (rkw : List W32) (hrk : rkw ≠ []) (c : Val) (ns ts cap : Nat) (dst nonce pt aad : Bytes)
+    (hn : nonce.length = ns) (hp : pt.length ≤ maxPlain) (hts : ts ≤ 16) (hne : 0 < pt.length + ts)
+    (hc : dst.length ≤ cap) (hcap : cap < 2 ^ 62)
     (f : Nat) (hf : fuelSealAmd64 ≤ f) :
     ∃ t, run PX GX (asmOracle specsX semAmd64) f 0 (glueArgs c (.arr (rkw.map w32V)) ns ts dst nonce pt aad cap)
       = some (.ret [bytesV dst, bytesV (dst ++ sealGCM (Spec.SM4.cryptFast rkw) ts nonce pt aad)], t) :=
-  SMGo.Proofs.CTIRRefineGCMAmd64.run_Seal_amd64_ref rkw c ns ts cap dst nonce pt aad hn hp hts hc hcap f hf
+  SMGo.Proofs.CTIRRefineGCMAmd64.run_Seal_amd64_ref rkw hrk c ns ts cap dst nonce pt aad hn hp hts hne hc hcap f hf
 
-theorem run_Open_amd64_ref (rkw : List W32) (c : Val) (ns ts cap : Nat) (dst nonce ct aad : Bytes)
+theorem run_Open_amd64_ref (rkw : List W32) (hrk : rkw ≠ []) (c : Val) (ns ts cap : Nat) (dst nonce ct aad : Bytes)
     (hn : nonce.length = ns) (hts : 12 ≤ ts) (hts' : ts ≤ 16) (hcl : ct.length ≤ maxPlain + ts)
     (hc : dst.length ≤ cap) (hcap : cap < 2 ^ 62) (f : Nat) (hf : fuelOpenAmd64 ≤ f) :
     ∃ t, run PX GX (asmOracle specsX semAmd64) f 2 (glueArgs c (.arr (rkw.map w32V)) ns ts dst nonce ct aad cap)
       = some (.ret (match openGCM (Spec.SM4.cryptFast rkw) ts nonce ct aad with
           | some pt => [bytesV dst, bytesV (dst ++ pt), .int 0]
           | none => [bytesV dst, .arr [], .int 1]), t) :=
-  SMGo.Proofs.CTIRRefineGCMAmd64.run_Open_amd64_ref rkw c ns ts cap dst nonce ct aad hn hts hts' hcl hc hcap f hf
+  SMGo.Proofs.CTIRRefineGCMAmd64.run_Open_amd64_ref rkw hrk c ns ts cap dst nonce ct aad hn hts hts' hcl hc hcap f hf
 
 end SMGo.Props.C06IR
 
@@ -356,6 +384,9 @@ namespace SMGo.Props.C06IR
 #print axioms ir_Seal_amd64_panic_long
 #print axioms ir_Open_amd64_panic_nonce
 #print axioms ir_Open_amd64_panic_tag
+#print axioms ir_Seal_amd64_stuck_empty
+#print axioms ir_Open_amd64_tag_only
+#print axioms ir_Open_amd64_mutant_stuck
 #print axioms run_Seal_amd64_ref
 #print axioms run_Open_amd64_ref
 end SMGo.Props.C06IR
